@@ -10,6 +10,7 @@ import (
 	"io"
 	"net"
 	"net/http"
+	"strconv"
 	"strings"
 	"time"
 
@@ -76,10 +77,9 @@ func parseQuery(q string) []qkv {
 func pctDecode(s string) string {
 	var sb strings.Builder
 	for i := 0; i < len(s); i++ {
-		if s[i] == '%' && i+2 < len(s)+0 && i+2 <= len(s)-1 {
-			var v byte
-			if _, err := fmt.Sscanf(s[i+1:i+3], "%02x", &v); err == nil {
-				sb.WriteByte(v)
+		if s[i] == '%' && i+3 <= len(s) {
+			if v, err := strconv.ParseUint(s[i+1:i+3], 16, 8); err == nil {
+				sb.WriteByte(byte(v))
 				i += 2
 				continue
 			}
@@ -189,6 +189,10 @@ func (m *model) wire(x *world, cl *s3c.Client, wd time.Duration) *wire {
 	b := cl.Build(r)
 	if r.Tamper != nil {
 		r.Tamper(b)
+	}
+	if b.Header.Get("X-C20-No-Content-Length") != "" {
+		b.Header.Del("X-C20-No-Content-Length")
+		r.NoContentLength = true
 	}
 	head := b.Wire(r)
 	body := b.Body
